@@ -133,6 +133,31 @@ func distScenario(sname string, seed []byte, b bounds, biased bool, other []byte
 		if !tablesEqual(c, "New(other).Reset(seed).Reset(other).Reset(seed)", w3, d) {
 			return
 		}
+		// one seed OBJECT used for several distributions (a bridge hands the same
+		// *drbg.Seed to every connection's distribution): still the same table
+		so := mkSeed(seed)
+		w5 := probdist.New(so, b.min, b.max, biased)
+		w6 := probdist.New(so, b.min, b.max, biased)
+		if !tablesEqual(c, "New(s) with a seed object s", w5, d) || !tablesEqual(c, "second New(s) with the same seed object s", w6, d) {
+			return
+		}
+		w6.Reset(so)
+		w5.Reset(so)
+		if !tablesEqual(c, "New(s).Reset(s) with the same seed object s", w6, d) || !tablesEqual(c, "New(s).Reset(s), third and fourth use of the seed object", w5, d) {
+			return
+		}
+		// the same seed and bounds with the other bias setting in the same
+		// process, before and after: each is the function of its own flag
+		dOther := ref.NewDist(seed, b.min, b.max, !biased)
+		w7 := probdist.New(mkSeed(seed), b.min, b.max, !biased)
+		if !tablesEqual(c, fmt.Sprintf("New(seed, biased=%v) after distributions with biased=%v were built from the same seed and bounds", !biased, biased), w7, dOther) {
+			return
+		}
+		w8 := probdist.New(mkSeed(seed), b.min, b.max, biased)
+		w7.Reset(mkSeed(seed))
+		if !tablesEqual(c, fmt.Sprintf("New(seed, biased=%v) after a distribution with biased=%v was built from the same seed and bounds", biased, !biased), w8, d) || !tablesEqual(c, "Reset(seed) of the distribution with the other bias setting", w7, dOther) {
+			return
+		}
 		w1.Reset(mkSeed(seed))
 		if !tablesEqual(c, "New(seed).Reset(seed)", w1, d) {
 			return
